@@ -27,7 +27,7 @@ RULE = (
 ASSUMPTIONS = [
     "For the two in-lambda entry points (defaults, captures) ValueError is the specified outcome for values that are not "
     "transportable scalars (str/int/float/bool/complex/bytes) and is accepted only for those.",
-    "File/tree/column names are str; MetaData keys are str.",
+    "Column names are str, file and tree names str or bytes; MetaData keys are str.",
 ]
 BUDGET = {"quick": (4, 1500), "thorough": (16, 20000)}
 
@@ -123,12 +123,15 @@ def _case(draw):
         if draw(st.booleans()):
             return {"entry": entry, "v": ["s", draw(_text)]}
         return {"entry": entry, "v": ["l", [["s", s] for s in draw(st.lists(_text, max_size=3))]]}
+    # a file / tree name is text - as a str, now and then as bytes (what os.fsencode gives; a listed value type at a listed entry point)
+    name = st.one_of(_text.map(lambda s_: ["s", s_]), _text.map(lambda s_: ["s", s_]), _text.map(lambda s_: ["s", s_]),
+                     st.one_of(st.binary(max_size=5), _codelike.map(lambda t: t.encode("ascii"))).map(lambda y: ["y", y.hex()]))
     if entry == "ttree":
         cols = ["s", draw(_text)] if draw(st.booleans()) else ["l", [["s", s] for s in draw(st.lists(_text, max_size=2))]]
-        return {"entry": entry, "v": ["t", [["s", draw(_text)], ["s", draw(_text)], cols]]}
+        return {"entry": entry, "v": ["t", [draw(name), draw(name), cols]]}
     if entry == "parquet":
         cols = ["s", draw(_text)] if draw(st.booleans()) else ["l", [["s", s] for s in draw(st.lists(_text, max_size=2))]]
-        return {"entry": entry, "v": ["t", [["s", draw(_text)], cols]]}
+        return {"entry": entry, "v": ["t", [draw(name), cols]]}
     return {"entry": entry, "v": draw(st.one_of(_scalars, _scalars, _scalars, _values)), "subclass": draw(st.integers(0, 5)) == 0}
 
 
